@@ -66,7 +66,7 @@ def gen_case(rng):
         deltas = [[rng.uniform(-2, 2) for _ in range(3)] for _ in range(3)]
     values = [_value(rng) for _ in range(n[0] * n[1] * n[2])]
     per_line = rng.choice([3, 3, 1, 2, 4, 5, 6])
-    fmt = rng.choice(["%e", "%.6e", "%.12e", "%r"])
+    fmt = rng.choice(["%e", "%.6e", "%.12e", "%r", "%E", "%+.6e"])
     natoms = rng.choice([0, 1, 3, 20, 300])
     return {"n": n, "origin": origin, "deltas": deltas, "values": values, "per_line": per_line, "fmt": fmt,
             "natoms": natoms, "shape_cls": shape_cls, "dtype": rng.choice(["double", "double", "float"])}
@@ -85,7 +85,8 @@ def dx_text(c, rng):
     lines.append(f"object 3 class array type {c.get('dtype', 'double')} rank 0 items {len(c['values'])} data follows")
     toks = [(c["fmt"] % v) if c["fmt"] != "%r" else repr(v) for v in c["values"]]
     for i in range(0, len(toks), c["per_line"]):
-        lines.append(" ".join(toks[i:i + c["per_line"]]) + (" " if rng.random() < 0.3 else ""))
+        sep = rng.choice([" ", " ", " ", "  ", "\t"])
+        lines.append(sep.join(toks[i:i + c["per_line"]]) + (" " if rng.random() < 0.3 else ""))
     lines += ['attribute "dep" string "positions"',
               'object "regular positions regular connections" class field',
               'component "positions" value 1', 'component "connections" value 2', 'component "data" value 3']
